@@ -2,6 +2,9 @@ CONSTANT Tier = "quick"
 CONSTANT NProc = 3
 CONSTANT Buggy_PickleCarriesHash = FALSE
 CONSTANT Buggy_DigestUsesProcess = FALSE
+CONSTANT Buggy_SetstateByPosition = FALSE
+CONSTANT Buggy_ArgsBySetOrder = FALSE
+CONSTANT Buggy_DigestSkipsShared = FALSE
 CONSTANT Buggy_CompiledLosesVars = FALSE
 INIT Init
 NEXT Next
